@@ -107,7 +107,20 @@ W_IRPF2 = {"categories": [_one("IRPF", "15%", "100.00", "15.00", True), _one("IR
 W_IRPF = {"categories": [_one("IRPF", "15%", "100.00", "14.00", True)], "sum": "-14.00"}
 # C20-merge-shares-operand-rows (b), precise figures: base 100.004 recalculated in EUR, rule precise: precise 21.001 / presented 21.00
 W_FINE = {"categories": [_one("VAT", "21%", "100.004", "21.00")], "sum": "21.00"}
+# C20-merge-different-precisions: a summary calculated for JPY (no decimals) and one for EUR; the presented figures
+# were added with x.Add(y), which rounds y to x's decimals: base 1101 in one order, 1100.55 in the other
+W_JPY = {"categories": [_one("VAT", "10%", "1000", "100")], "sum": "100"}
+W_EUR10 = {"categories": [_one("VAT", "10%", "100.55", "10.06")], "sum": "10.06"}
+W_JPY_S = {"categories": [{"code": "VAT", "rates": [{"base": "1000", "percent": "10%", "surcharge": {"percent": "5.2%", "amount": "52"}, "amount": "100"}],
+                           "amount": "100", "surcharge": "52"}], "sum": "152"}
+W_EUR_S = {"categories": [{"code": "VAT", "rates": [{"base": "100.55", "percent": "10%", "surcharge": {"percent": "5.2%", "amount": "5.23"}, "amount": "10.06"}],
+                           "amount": "10.06", "surcharge": "5.23"}], "sum": "15.29"}
 CORPUS = [
+    ("merge", [("tt", W_JPY), ("tt", W_EUR10)]),
+    ("merge", [("tt", W_EUR10), ("tt", W_JPY)]),
+    ("merge", [("tt", W_JPY_S), ("tt", W_EUR_S)]),
+    ("merge", [("tt", W_EUR_S), ("tt", W_JPY_S)]),
+    ("merge", [("ctt", [0, 0, W_JPY]), ("ctt", [0, 2, W_FINE]), ("ctt", [1, 3, W_EUR10])]),
     ("merge", [("tt", W_VAT), ("tt", W_IRPF2)]),
     ("merge", [("tt", W_VAT), ("tt", W_IRPF)]),
     ("merge", [("ctt", [0, 2, W_FINE]), ("ctt", [0, 2, W_FINE])]),
@@ -117,6 +130,16 @@ CORPUS = [
     ("negate", [("ctt", [0, 2, W_FINE])]),
     ("merge_negate", [("ctt", [0, 2, W_FINE])]),
 ]
+
+
+def operand_decimals(o):
+    """decimals of the presented figures of an operand"""
+    kind, x = o
+    if kind == "ctt":
+        return x[1]
+    if kind == "tt":
+        return cg.parse(x["sum"]).e
+    return 2
 
 
 def operand_lines(ops):
@@ -210,7 +233,12 @@ def run(c):
     g.calc_only = True      # combos that calculate but would not validate (rate key under a country without regime)
     n = 3000 if quick else 120000
 
-    def operand():
+    def operand(cdec=None, cats=None):
+        if cdec is not None:
+            # a summary at the precision of another currency (JPY 0, EUR 2, KWD 3 decimals), as loaded or recalculated
+            if rng.random() < 0.25:
+                return ("ctt", [rng.choice([0, 0, 1]), cdec, finer_bases(rng, gen_tt(rng, c=cdec, cats=cats), c=cdec)])
+            return ("tt", gen_tt(rng, c=cdec, cats=cats))
         if rng.random() < 0.2:
             # a loaded summary with finer bases, recalculated (as DocumentRef.Calculate does): unexported precise figures
             return ("ctt", [rng.choice([0, 0, 1]), 2, finer_bases(rng, gen_tt(rng))])
@@ -236,11 +264,20 @@ def run(c):
         elif k == 1:
             cases.append(("merge_negate", [operand()]))
         elif k == 2:
-            a, b = operand(), operand()
+            if rng.random() < 0.4:
+                # operands of DIFFERENT precision sharing categories (and, the keys being few, rate groups), in both orders
+                ca, cb = rng.sample([0, 2, 3], 2)
+                shared = rng.sample(["VAT", "IRPF", "IGIC", "GST"], rng.randint(1, 2))
+                a, b = operand(ca, shared if rng.random() < 0.7 else None), operand(cb, shared)
+            else:
+                a, b = operand(), operand()
             cases.append(("merge", [a, b]))
             cases.append(("merge", [b, a]))
         elif k == 3:
-            cases.append(("merge", [operand() for _ in range(rng.randint(3, 5))]))
+            if rng.random() < 0.3:
+                cases.append(("merge", [operand(rng.choice([0, 2, 2, 3])) for _ in range(rng.randint(3, 5))]))
+            else:
+                cases.append(("merge", [operand() for _ in range(rng.randint(3, 5))]))
         else:
             cases.append(("negate", [("tt", gen_tt(rng, cats=["VAT"]))]))
     gl, ml = [], []
@@ -272,6 +309,8 @@ def run(c):
     for (op_, ops), gline, mline in zip(cases, go, mo):
         gv, mv = parse_wire(gline), parse_wire(mline)
         c.count(op_ if len(ops) < 3 else "merge-sequence", 1, gline)
+        if op_ == "merge" and len({operand_decimals(o) for o in ops}) > 1:
+            c.count("merge-different-precisions", 1, gline)
         broken = gv != mv
         if broken:
             mism += 1
@@ -362,6 +401,10 @@ def run(c):
     mo = run_oracle(["c20 pay " + w(mw) for _, mw in pay_cases])
     for (p, mw), gline, mline in zip(pay_cases, go, mo):
         c.count("payment", 1, gline)
+        if any(l.get("currency") and l.get("document", {}).get("currency") == l["currency"] != p["currency"] for l in p["lines"]):
+            c.count("payment-line-in-document-currency", 1, gline)
+        if len({l["document"].get("currency", p["currency"]) for l in p["lines"] if l.get("document", {}).get("tax")}) > 1:
+            c.count("payment-documents-in-several-currencies", 1, gline)
         gv, mv = parse_wire(gline), parse_wire(mline)
         bad = None
         if not is_err(gv):
@@ -379,8 +422,10 @@ def run(c):
         c.sample({"payment": pay_cases[0][0]}, limit=4)
     c.cov["rule"] = ("summaries: a fixed corpus of witnesses of repaired defects, calculated invoices' tax totals (real unexported state), generated well-formed summaries "
                      "(1-3 categories, retained or not, keyed/percent/exempt groups, surcharges, extensions, countries) as loaded and - with finer bases - as recalculated "
-                     "(unexported precise figures), negated, merged pairwise in both orders, in sequences of 3-5 and with their own "
-                     "negation; payments with 1-8 debit/credit lines in 1-3 currencies with exchange rates and document tax summaries; distinct = distinct implementation results")
+                     "(unexported precise figures), at one precision and at the precisions of different currencies (0, 2, 3 decimals: counted as merge-different-precisions), "
+                     "negated, merged pairwise in both orders, in sequences of 3-5 and with their own "
+                     "negation; payments with 1-8 debit/credit lines in 1-4 currencies with exchange rates and document tax summaries, the documents with no currency, "
+                     "the payment's or another one (0, 2, 3 decimals), the line currency absent, equal to or different from its document's and the payment's; distinct = distinct implementation results")
     c.cov["go_model_differences"] = mism
     if not proved:
         pr = c.proof
@@ -393,8 +438,8 @@ def gen_payments(c, rng, n):
     for _ in range(n):
         cur = rng.choice(["EUR", "EUR", "JPY", "KWD"])
         cdec = cg.SUBUNITS[cur]
-        others = [x for x in ("USD", "GBP") if x != cur]
-        rates = [{"from": o, "to": cur, "amount": rng.choice(["0.875967", "149.31", "0.31", "1.1", "0.5", "1.25", "0.305"])} for o in others]
+        others = [x for x in ("USD", "GBP", "JPY") if x != cur]
+        rates = [{"from": o, "to": cur, "amount": rng.choice(["0.875967", "149.31", "0.31", "1.1", "0.5", "1.25", "0.305", "0.96", "0.0061"])} for o in others]
         lines = []
         for _ in range(rng.randint(1, 8)):
             l = {}
@@ -407,9 +452,25 @@ def gen_payments(c, rng, n):
                 l["currency"] = rng.choice(others)
             if rng.random() < 0.6:
                 doc = {"uuid": "3aea7b56-59d8-4beb-90bd-f8f280d852a0", "issue_date": "2025-01-10", "code": "001"}
+                # the settled document's own currency: absent (= the payment's), the payment's stated explicitly, or another one
+                # (its summary is recalculated at THAT currency's decimals, so one payment merges summaries of different precision)
+                k = rng.random()
+                if k < 0.25:
+                    doc["currency"] = cur
+                elif k < 0.6:
+                    doc["currency"] = rng.choice(others + ["KWD", "EUR"])
                 if rng.random() < 0.8:
-                    doc["tax"] = gen_tt(rng, c=cdec)
+                    doc["tax"] = gen_tt(rng, c=cg.SUBUNITS[doc.get("currency", cur)])
                 l["document"] = doc
+                # the amount of a line is in the line's currency when given (whatever the document's is), else in the
+                # payment's: every combination of line currency = / <> document currency = / <> payment currency
+                dc = doc.get("currency")
+                if dc and (dc == cur or dc in others):
+                    k = rng.random()
+                    if k < 0.5:
+                        l["currency"] = dc
+                    elif k < 0.65:
+                        l.pop("currency", None)
             lines.append(l)
         p = {"$schema": "https://gobl.org/draft-0/bill/payment", "uuid": "0194ad4c-3462-7695-a40c-66a30ccc1405", "type": "receipt",
              "method": {"key": "credit-transfer"}, "code": "0001", "issue_date": "2025-01-28", "currency": cur,
@@ -418,7 +479,7 @@ def gen_payments(c, rng, n):
         for l in lines:
             d = l.get("document")
             mlines.append([[cg.CURID[l["currency"]]] if l.get("currency") else [], cg.oa(l.get("debit")), cg.oa(l.get("credit")),
-                           [] if d is None else [[], tt_wire(d["tax"]) if d.get("tax") else []]])
+                           [] if d is None else [[cg.CURID[d["currency"]]] if d.get("currency") else [], tt_wire(d["tax"]) if d.get("tax") else []]])
         mw = [1, 0, cg.CURID[cur], cdec, [[cg.CURID[k], cg.SUBUNITS[k]] for k in cg.SUBUNITS],
               [[cg.CURID[r["from"]], cg.CURID[r["to"]], cg.parse(r["amount"]).t()] for r in rates], mlines]
         out.append((p, mw))
@@ -431,7 +492,7 @@ def judge_payment(p, gv):
     cdec = cg.SUBUNITS[cur]
     rates = {r["from"]: cg.parse(r["amount"]).q() for r in p["exchange_rates"]}
     total = Z
-    for l, lt in zip(p["lines"], gv[1]):
+    for i, (l, lt) in enumerate(zip(p["lines"], gv[1])):
         v = Z
         for k, s in (("debit", 1), ("credit", -1)):
             if k in l:
@@ -447,7 +508,9 @@ def judge_payment(p, gv):
                         a = Fraction(cg.rha(x.numerator, x.denominator), 10 ** cdec)
                 v += s * a
         if q(lt) != v:
-            return "line total %s is not debit - credit = %s" % (q(lt), v)
+            return ("line %d (line currency %s, document currency %s, payment currency %s): total %s is not debit - credit converted "
+                    "to the payment currency with the declared rate = %s"
+                    % (i, l.get("currency", "-"), (l.get("document") or {}).get("currency", "-"), cur, q(lt), v))
         total += v
     if q(gv[2]) != total:
         return "total %s is not the sum of the lines' debit - credit = %s" % (q(gv[2]), total)
